@@ -2,6 +2,7 @@ package variable
 
 import (
 	"fmt"
+	"net/netip"
 	"strconv"
 	"time"
 
@@ -54,6 +55,19 @@ func getBackendHost(backend *value.Backend) (value.Value, error) {
 		}
 	}
 	return &value.String{IsNotSet: true}, nil
+}
+
+// The remote address of a request is "host:port" (net/http, and what the test runner sets);
+// a bare address is accepted as well.
+func isRemoteAddrIPv6(remoteAddr string) (bool, error) {
+	if ap, err := netip.ParseAddrPort(remoteAddr); err == nil {
+		return ap.Addr().Is6(), nil
+	}
+	parsed, err := netip.ParseAddr(remoteAddr)
+	if err != nil {
+		return false, fmt.Errorf("could not parse remote address")
+	}
+	return parsed.Is6(), nil
 }
 
 func GetFastlyInfoVariable(ctx *context.Context, name string) (value.Value, error) {
